@@ -16,6 +16,7 @@ type flDecl struct {
 	Kind   string `json:"kind"`
 	Rows   int    `json:"rows"`
 	Footer bool   `json:"footer"`
+	Pre    bool   `json:"pre,omitempty"` // a leading declaration: header ^H .. footer ^F, min 0, max 1, same columns
 }
 type flCol struct {
 	Idx int    `json:"idx"`
@@ -29,6 +30,7 @@ type c06Case struct {
 	Recs  [][][]interface{} `json:"recs"` // record -> [[colPos, valueSymbol], ...]
 	End   string            `json:"end"`
 	Nt    bool              `json:"nt"`
+	Prem  bool              `json:"prem"` // the first expected record is an instance of the leading declaration
 }
 
 // payload renderings of the field symbols
@@ -99,8 +101,12 @@ func csv2Schema(c *c06Case, delim string) string {
 			rec += `, "footer": "^F"`
 		}
 	}
+	pre := ""
+	if c.Decl.Pre {
+		pre = `{"name": "P", "header": "^H", "footer": "^F", "min": 0, "max": 1, "columns": [` + strings.Join(cols, ", ") + `]}, `
+	}
 	return `{"parser_settings": {"version": "omni.2.1", "file_format_type": "csv2"},
- "file_declaration": {"delimiter": ` + jstr(delim) + `, "records": [{` + rec + `, "columns": [` + strings.Join(cols, ", ") + `]}]},
+ "file_declaration": {"delimiter": ` + jstr(delim) + `, "records": [` + pre + `{` + rec + `, "is_target": true, "columns": [` + strings.Join(cols, ", ") + `]}]},
  "transform_declarations": {"FINAL_OUTPUT": {"object": {"x": {"const": "1"}}}}}`
 }
 
@@ -158,8 +164,12 @@ func fixed2Schema(c *c06Case) string {
 			rec += `, "footer": "^F"`
 		}
 	}
+	pre := ""
+	if c.Decl.Pre {
+		pre = `{"name": "P", "header": "^H", "footer": "^F", "min": 0, "max": 1, "columns": [` + strings.Join(cols, ", ") + `]}, `
+	}
 	return `{"parser_settings": {"version": "omni.2.1", "file_format_type": "fixedlength2"},
- "file_declaration": {"envelopes": [{` + rec + `, "columns": [` + strings.Join(cols, ", ") + `]}]},
+ "file_declaration": {"envelopes": [` + pre + `{` + rec + `, "is_target": true, "columns": [` + strings.Join(cols, ", ") + `]}]},
  "transform_declarations": {"FINAL_OUTPUT": {"object": {"x": {"const": "1"}}}}}`
 }
 
@@ -191,6 +201,7 @@ func runFlat(sch omniparser.Schema, input string, maxReads int) (recs []obsRec, 
 	if err != nil {
 		return nil, "newtransform", err.Error()
 	}
+	sawP := false
 	for i := 0; i < maxReads; i++ {
 		_, err := tr.Read()
 		if err == nil {
@@ -199,13 +210,26 @@ func runFlat(sch omniparser.Schema, input string, maxReads int) (recs []obsRec, 
 				return recs, "rawrecord-error", e2.Error()
 			}
 			n := rr.Raw().(*idr.Node)
-			var rec obsRec
-			for c := n.FirstChild; c != nil; c = c.NextSibling {
-				if c.Type == idr.ElementNode {
-					rec = append(rec, [2]string{c.Data, c.InnerText()})
+			toRec := func(n *idr.Node) obsRec {
+				rec := obsRec{}
+				for c := n.FirstChild; c != nil; c = c.NextSibling {
+					if c.Type == idr.ElementNode {
+						rec = append(rec, [2]string{c.Data, c.InnerText()})
+					}
+				}
+				return rec
+			}
+			// an instance of the leading declaration "P" is not a target: it stays attached to the root, visible
+			// from the first delivered record
+			if n.Parent != nil && !sawP {
+				for c := n.Parent.FirstChild; c != nil; c = c.NextSibling {
+					if c.Type == idr.ElementNode && c.Data == "P" {
+						recs = append(recs, toRec(c))
+						sawP = true
+					}
 				}
 			}
-			recs = append(recs, rec)
+			recs = append(recs, toRec(n))
 			continue
 		}
 		switch classify(err) {
@@ -266,7 +290,10 @@ func c06Replay(args []string) int {
 		crlf, lastTerm := r.Intn(3) == 0, r.Intn(3) != 0
 		expect := func(p flPayload, fixed bool) []obsRec {
 			var out []obsRec
-			for _, rec := range c.Recs {
+			for ri, rec := range c.Recs {
+				if ri == 0 && c.Prem && len(c.Recs) == 1 {
+					continue // nothing is delivered after the leading instance: it cannot be observed
+				}
 				var o obsRec
 				for _, cv := range rec {
 					v := p.m[cv[1].(string)]
@@ -333,7 +360,7 @@ func c06Replay(args []string) int {
 		for _, col := range c.Cols {
 			noLi = noLi && col.Li == 0
 		}
-		if c.Decl.Kind == "rows" && noLi {
+		if c.Decl.Kind == "rows" && noLi && !c.Decl.Pre {
 			fp := fixedPayload()
 			input := renderFixed(c.Lines, fp, crlf, lastTerm)
 			schema := fixedLegacySchema(&c)
@@ -351,7 +378,7 @@ func c06Replay(args []string) int {
 			}
 		}
 		// --- legacy csv: one row per record, columns by position; a column beyond the row yields nothing
-		if c.Decl.Kind == "rows" && c.Decl.Rows == 1 && len(c.Cols) == 2 && c.Cols[0] == (flCol{1, 0, ""}) && c.Cols[1] == (flCol{2, 0, ""}) {
+		if c.Decl.Kind == "rows" && !c.Decl.Pre && c.Decl.Rows == 1 && len(c.Cols) == 2 && c.Cols[0] == (flCol{1, 0, ""}) && c.Cols[1] == (flCol{2, 0, ""}) {
 			input := renderCSV(c.Lines, pl, delim, crlf && pl.name != "rich", lastTerm)
 			schema := csvLegacySchema(delim)
 			sch, e := getSchema(schema)
@@ -421,7 +448,14 @@ func c06Drive(args []string) int {
 		}
 		nl := 20 + r.Intn(60)
 		var lines [][]string
-		decl := []flDecl{{"rows", 1, false}, {"rows", 2, false}, {"rows", 3, false}, {"hf", 0, false}, {"hf", 0, true}}[r.Intn(5)]
+		decl := []flDecl{{"rows", 1, false, false}, {"rows", 2, false, false}, {"rows", 3, false, false}, {"hf", 0, false, false}, {"hf", 0, true, false}}[r.Intn(5)]
+		decl.Pre = r.Intn(3) == 0
+		if decl.Pre && r.Intn(2) == 0 { // a leading block; without a footer when the main declaration has none either
+			lines = append(lines, []string{"H", syms[r.Intn(6)]}, []string{syms[r.Intn(6)]})
+			if decl.Footer || r.Intn(2) == 0 {
+				lines = append(lines, []string{"F", syms[r.Intn(6)]})
+			}
+		}
 		for len(lines) < nl {
 			if r.Intn(8) == 0 {
 				lines = append(lines, []string{})
